@@ -56,6 +56,8 @@ def r15_1(chk):
     ok = "if frame and frame != self.frame:\n        new_obj.frame = frame" in txt and "if form and form != self.form:\n        new_obj.form = form" in txt \
         and txt.index("new_obj.frame = frame") < txt.index("new_obj.form = form")
     chk.inst("R15.1", f"{f.ref}::conversion-on-the-copy", ok, "frame then form are changed on the new object only" if ok else "conversion no longer applied to the copy only", loc(f, f.node))
+    ok = "if same is not None:\n        if hasattr(same, 'frame') and hasattr(same, 'form'):\n            frame = same.frame\n            form = same.form" in txt
+    chk.inst("R15.1", f"{f.ref}::same", ok, "`same=` supplies both the frame and the form of the model object" if ok else "changed", loc(f, f.node))
     # containers of mutable objects
     has_deep = "maneuvers" in txt or "deepcopy" in txt or "[m.copy()" in txt
     chk.inst("R15.1", f"{f.ref}::container-elements", has_deep, "elements of the maneuvers list are copied" if has_deep else
